@@ -217,7 +217,16 @@ def run_case(seed, tier, case_no):
     # peak factor against the reference for the two documented closed-form variants (sampled buses; no generators for
     # method C because the fictitious generator resistances make the reference ambiguous there)
     if not current_sources and len(rows) and "ip_ka" in rows.columns and fault != "1ph":
-        method = "radial" if opts["topology"] == "radial" else ("C" if opts["kappa_method"] == "C" and not len(net.gen) else None)
+        # (several ext_grids at one bus are merged into one bus admittance before pandapower scales it to the equivalent frequency,
+        # which is not the parallel connection of the scaled elements when their R/X differ: outside the closed-form reference)
+        from ..oracles import balance
+        grp = {b_: k for k, members in enumerate(balance.fused_groups(net)) for b_ in members}
+        eg = [grp[b_] for b_ in net.ext_grid.bus[net.ext_grid.in_service.values].values]
+        co_located = len(eg) != len(set(eg))
+        if co_located:
+            tags.add("co_located_ext_grids")
+        method = "radial" if opts["topology"] == "radial" else \
+            ("C" if opts["kappa_method"] == "C" and not len(net.gen) and not co_located else None)
         if method:
             tags.add("kappa_ref:" + method)
             for b in g.rng.choice(rows.index.values, size=min(3, len(rows)), replace=False):
